@@ -292,9 +292,12 @@ def run(tier="quick", replay=None):
     R.floor("R06.path", "environment lookups in run_step", len(cp_sites), 1, site)
     cf = with_helpers(prog, CHOOSE)
     for bb, t in cp_sites:
-        # the numeric path arguments (orig, p) are args 1 and 2
-        pl = op_local(t["args"][2])
-        flat = fl.derives_from_call(pl, lambda c: c == FLATTEN) if pl is not None else []
+        # the numeric path arguments are the big-integer arguments, whatever their position (free function, method, trait method)
+        flat = []
+        for a_ in t["args"]:
+            al_ = op_local(a_)
+            if al_ is not None and "BigInt" in f.local_ty(al_):
+                flat += fl.derives_from_call(al_, lambda c: c == FLATTEN)
         R.check(bool(flat), "R06.path", "R06.path|flattened", f.loc(bb),
                 "auto: the path handed to choose_path is the result of flatten_signed_int",
                 "run_step descends with a path that was not made non-negative by flatten_signed_int: atoms with the top bit "
@@ -323,7 +326,8 @@ def run(tier="quick", replay=None):
                 if is_bigint_eq(t2):
                     args = [op_local(a) for a in t2["args"] if op_local(a) is not None]
                     zero = [a for a in args if cfl.derives_from_call(a, lambda c: c.endswith("bi_zero") or c.endswith("Zero>::zero"))]
-                    val = [a for a in args if 3 in direct_sources(cfl, a)]
+                    big_params = {i for i in range(1, cf.argc + 1) if "BigInt" in cf.local_ty(i)}
+                    val = [a for a in args if big_params & direct_sources(cfl, a)]
                     if zero and val:
                         in_callee = True
         R.check(in_caller or in_callee, "R06.path", "R06.path|all-zero-path-answered", f.loc(bb),
@@ -425,8 +429,8 @@ def run(tier="quick", replay=None):
                 "choose_path's descent no longer maps an even step to the first child and an odd step to the rest child (%s); the "
                 "consensus traverse_path takes right on a set bit, left otherwise" % detail, fn=CHOOSE)
         rec = [(b2, t2) for b2, t2 in cf.calls() if callee_of(t2) == CHOOSE]
-        div_ok = bool(rec) and all(op_local(t2["args"][2]) is not None and
-                                   cfl.derives_from_call(op_local(t2["args"][2]), lambda c: "ops::Div" in c) for _, t2 in rec)
+        div_ok = bool(rec) and all(any(op_local(a_) is not None and cfl.derives_from_call(op_local(a_), lambda c: "ops::Div" in c)
+                                       for a_ in t2["args"]) for _, t2 in rec)
         R.check(div_ok, "R06.path", "R06.path|halves", "%s:%s" % (cf.file, cf.line),
                 "auto: the recursive descent continues with p / 2", "choose_path's recursion no longer continues with p / 2", fn=CHOOSE)
 
